@@ -272,6 +272,30 @@ func randValue(r *rngT, proto message.Message) message.Message {
 	return rv.Interface().(message.Message)
 }
 
+// allOnes: every numeric element 0x0101.., every string full length of 'x'.
+func allOnes(proto message.Message) message.Message {
+	rv := reflect.New(reflect.TypeOf(proto).Elem())
+	t := rv.Elem().Type()
+	for i := 0; i < t.NumField(); i++ {
+		f := rv.Elem().Field(i)
+		switch f.Kind() {
+		case reflect.String:
+			n := 1
+			if ml := t.Field(i).Tag.Get("mavlen"); ml != "" {
+				fmt.Sscanf(ml, "%d", &n)
+			}
+			f.SetString(strings.Repeat("x", n))
+		case reflect.Array:
+			for j := 0; j < f.Len(); j++ {
+				setBits(f.Index(j), 0x0101010101010101)
+			}
+		default:
+			setBits(f, 0x0101010101010101)
+		}
+	}
+	return rv.Interface().(message.Message)
+}
+
 func (r *rngT) edge64() uint64 {
 	switch r.Intn(8) {
 	case 0:
@@ -491,6 +515,18 @@ func genC06(r *rngT, n int, tier string) {
 			stat("c06-flip")
 		}
 	}
+	// largest frames: every message of >= 200 bytes, all bytes non-zero, signed (the whole 13-byte block must fit)
+	defineDialect("user")
+	for _, dn := range []string{"common", "user"} {
+		for _, m := range getDialect(dn).Messages {
+			if reflect.TypeOf(m).Elem().Size() < 200 {
+				continue
+			}
+			v := allOnes(m)
+			execOp(fmt.Sprintf("swrite %s 2 1 1 7 %s %s@%d", dn, hx(key), encMsg(v), 123456789))
+			stat("c06-swrite-big")
+		}
+	}
 	// writers sign correctly: streamwriter with a key, verified by the model's formula
 	for i := 0; i < n/5+1; i++ {
 		var its []string
@@ -560,6 +596,23 @@ func genC07(r *rngT, n int, tier string) {
 		}
 		execOp(fmt.Sprintf("read - %s 0 %s %s", hx(key), encStream(items), randPlan(r)))
 		stat("c07-random-history")
+	}
+	// histories with forged frames (wrong key, far-future or far-past timestamps) between valid ones:
+	// only ACCEPTED frames may move the window
+	other := r.bytes(32)
+	for i := 0; i < n/2+5; i++ {
+		var items []item
+		base := uint64(2000000 + r.Intn(1<<30))
+		for k := 0; k < 3+r.Intn(6); k++ {
+			switch r.Intn(3) {
+			case 0:
+				items = append(items, bytesItems(signedAt(r, other, []uint64{base + 5000000, 1<<48 - 1, 0, base - 1500000}[r.Intn(4)]))...)
+				stat("c07-forged")
+			default:
+				items = append(items, bytesItems(signedAt(r, key, base+uint64(r.Intn(1000))-uint64(r.Intn(1000))))...)
+			}
+		}
+		execOp(fmt.Sprintf("read - %s 0 %s %s", hx(key), encStream(items), randPlan(r)))
 	}
 	// writer side: consecutive signed writes carry non-decreasing, correctly scaled timestamps
 	defineDialect("common")
